@@ -367,7 +367,7 @@ def check_nickname(ck, eng):
 
 
 # ---------------------------------------------------------------------------- D4
-def check_decode_map(ck, eng):
+def check_decode_map(ck, eng, prefix='C16-D4'):
     fn = eng.method('motors_query_enabled')
     q = fn.qualname
     want = {0: 0}
@@ -388,7 +388,7 @@ def check_decode_map(ck, eng):
                         got = None
     if got is None:
         raise AnalysisError('%s: no constant decode table found in the returned values' % q)
-    ck.ob('C16-D4-decode-map', q, got == want,
+    ck.ob(prefix + '-decode-map', q, got == want,
           '%s decodes QE values with %s; QE reports the microstep divisor (16,8,4,2,1) and EM '
           'takes 1..5, so the map must be %s' % (q, got, want), fn.loc(), key=q + '::map')
     outs = [o for o in eng.run('motors_query_enabled', OK, inject=False) if acked(o)]
@@ -410,7 +410,7 @@ def check_decode_map(ck, eng):
                 fields.append(idx)
         if fields != [0, 1]:
             ok = False
-    ck.ob('C16-D4-decode-fields', q, ok,
+    ck.ob(prefix + '-decode-fields', q, ok,
           '%s does not return (map[int(first reply field)], map[int(second reply field)])' % q,
           fn.loc(), key=q + '::fields')
 
